@@ -22,6 +22,13 @@ deriving Repr
 
 def canon (b : Bytes) : String := (nameOfBytes b).toLower
 
+/-- `checkDBName` (storage/file.go): the lower-cased name is used as one path element below the data
+directory - not the directory itself or its parent, no path separator or NUL, at most 255 bytes -/
+def validDbName (b : Bytes) : Bool :=
+  -- (lower-casing changes none of this for ASCII; a name whose Unicode lower-casing changes its byte
+  -- length around the limit is outside the model)
+  b != [46] && b != [46, 46] && decide (b.length ≤ 255) && !(b.any fun c => c == 47 || c == 0)
+
 def getDB (s : Sess) (n : String) : Option DB := (s.dbs.find? (·.1 == n)).map (·.2)
 def setDB (s : Sess) (n : String) (db : DB) : Sess :=
   { s with dbs := if s.dbs.any (·.1 == n) then s.dbs.map (fun p => if p.1 == n then (n, db) else p) else s.dbs ++ [(n, db)] }
@@ -60,12 +67,14 @@ def onCurrent (s : Sess) (f : DB → Res α) : Sess × Out :=
 def exec (s : Sess) : Stmt → Sess × Out
   | .createDatabase name =>
     let n := canon name
+    if !validDbName name then (s, .err "invalidDbName") else
     if (getDB s n).isSome then (s, .err "dbExists") else
     match createDB [] {} with
     | .ok _ st => (setDB s n { store := reopen st, wal := [] }, .ok)
     | _ => (s, .panic)
   | .use name =>
     let n := canon name
+    if !validDbName name then (s, .err "invalidDbName") else
     if (getDB s n).isNone then (s, .err "dbNotExist")
     else
       -- the previously selected database is closed (flushed); selecting the current one again changes nothing
